@@ -479,6 +479,6 @@ def run_shard(spec, col: Collector):
 
 def plan(tier, seed, scale=1.0):
     q = tier == "quick"
-    n, copies, mx = (2000, 8, 25) if q else (60000, 16, 40)
+    n, copies, mx = (2000, 8, 25) if q else (240000, 16, 40)
     return [dict(shard=f"g{c}", n=int(n * scale), max_nodes=mx, budget_s=50 if q else 800, timeout_s=150 if q else 1300,
                  hash_seed=(seed * 13 + c) % 4294967295) for c in range(copies)]
